@@ -328,10 +328,33 @@ theorem insertion_stores_a_bijection {s s' : Snap} {n syn : Node} {f2o : SlotMap
     subst he
     exact Node.weakShape_bij_ok n1
 
+/-- **for every sequence of modelled insertions**: the union-find half, the leader entries and groups of all classes and the uniqueness of
+stored shapes hold at the end whenever they held at the start, and every class from the start is still a class at the end with its whole
+per-class conjunct of `checkInv` -/
+theorem insertions_keep_invariant_parts {s s'' : Snap} (hok : Snap.AddOK s) (hi : Snap.Inserts s s'')
+    (huf : Snap.ufOK s = true)
+    (hl : ∀ c ∈ s.classes, Snap.leaderOK s c = true) (hg : ∀ c ∈ s.classes, Grp.Valid c.slots c.gens)
+    (hu : (s.classes.flatMap fun c => c.nodes.map (·.1)).Nodup) :
+    Snap.ufOK s'' = true ∧
+    (∀ c ∈ s''.classes, Snap.leaderOK s'' c = true) ∧ (∀ c ∈ s''.classes, Grp.Valid c.slots c.gens) ∧
+    (s''.classes.flatMap fun c => c.nodes.map (·.1)).Nodup ∧
+    ∀ c ∈ s.classes,
+      (Snap.sortedStrict c.slots && Snap.leaderOK s c && Snap.gensOK c && c.nodes.all (Snap.nodeOK c) && Snap.childrenOK s c) = true →
+      c ∈ s''.classes ∧
+      (Snap.sortedStrict c.slots && Snap.leaderOK s'' c && Snap.gensOK c && c.nodes.all (Snap.nodeOK c) &&
+        Snap.childrenOK s'' c) = true :=
+  ⟨Snap.inserts_keep_ufOK huf hi, (Snap.inserts_keep_leaders_groups hok hi hl hg).1, (Snap.inserts_keep_leaders_groups hok hi hl hg).2,
+   Snap.inserts_keep_shapes_unique hok hi hu, fun _ hc hinv => Snap.inserts_keep_old_class_inv hok hi hc hinv⟩
+
 /-- non-vacuity: on the empty e-graph the node `f2($8, $12)` (variant 7, two slot fields) is a miss; with the fresh slots
 `101, 105` handed in, the model allocates class 0 -/
 example : ((Snap.addNew { uf := [], classes := [] } { v := 7, fields := [.slot 8, .slot 12] } [(101, 8), (105, 12)]
     { v := 7, fields := [.slot 101, .slot 105] } "-").map (·.2)) = some { id := 0, m := [(101, 8), (105, 12)] } := by
   decide
 
+/-- non-vacuity of the preservation theorems: the state that insertion produces passes the whole of `checkInv` (kernel-evaluated), so it
+meets every hypothesis the theorems above ask of a state before the next insertion -/
+example : ((Snap.addNew { uf := [], classes := [] } { v := 7, fields := [.slot 8, .slot 12] } [(101, 8), (105, 12)]
+    { v := 7, fields := [.slot 101, .slot 105] } "-").map (fun r => Snap.checkInv r.1 && Snap.ufOK r.1)) = some true := by
+  decide
 end SV.C09
